@@ -666,9 +666,90 @@ func c11Pipelined(r *Result) {
 	}
 }
 
+// c11ListenerCloseFails: the listener's Close does close it but reports an error (clean-up gone wrong). Whatever Shutdown makes
+// of that error, it does not come back while a started session is open and the context is live - "no callback or handler
+// starts or is still running after it".
+func c11ListenerCloseFails(r *Result) {
+	for _, busy := range []bool{false, true} {
+		key := fmt.Sprintf("Shutdown on a listener whose Close reports an error, one session open (request in flight: %v), context 5 s", busy)
+		r.eval(key, true)
+		release := make(chan struct{})
+		entered := make(chan struct{}, 1)
+		var running int32
+		s := &kmip.Server{}
+		s.Handle(kmip.OPERATION_ACTIVATE, func(ctx *kmip.RequestContext, item *kmip.RequestBatchItem) (interface{}, error) {
+			atomic.StoreInt32(&running, 1)
+			entered <- struct{}{}
+			<-release
+			atomic.StoreInt32(&running, 0)
+			return kmip.ActivateResponse{UniqueIdentifier: "x"}, nil
+		})
+		sc, cc := rec.Pipe()
+		rc := rec.NewConn(sc, 1)
+		l := rec.NewListener()
+		l.CloseErr = fmt.Errorf("listener: cannot remove socket file")
+		l.Push(rec.AcceptStep{Conn: rc})
+		init := make(chan struct{})
+		ret := make(chan error, 1)
+		go func() { ret <- s.Serve(l, init) }()
+		<-init
+		_ = cc.SetDeadline(time.Now().Add(6 * time.Second))
+		if busy {
+			req := kmip.Request{Header: kmip.RequestHeader{Version: kmip.ProtocolVersion{Major: 1, Minor: 4}, BatchCount: 1},
+				BatchItems: []kmip.RequestBatchItem{{Operation: kmip.OPERATION_ACTIVATE, RequestPayload: kmip.ActivateRequest{UniqueIdentifier: "a"}}}}
+			go func() { _ = kmip.NewEncoder(cc).Encode(&req) }()
+			select {
+			case <-entered:
+			case <-time.After(3 * time.Second):
+				r.find(Finding{Kind: "disagreement", What: "scenario did not reach the handler", Input: key})
+			}
+		} else {
+			waitFor(func() bool { return l.Pending() == 0 }, 2*time.Second)
+			time.Sleep(20 * time.Millisecond)
+		}
+		ctx, cancel := context.WithTimeout(context.Background(), 5*time.Second)
+		sdc := make(chan error, 1)
+		go func() { sdc <- s.Shutdown(ctx) }()
+		select {
+		case e := <-sdc:
+			closed := false
+			select {
+			case <-rc.Closed():
+				closed = true
+			default:
+			}
+			r.find(Finding{Kind: "violation", What: "Shutdown returned while a started session was still open and its context had not ended", Input: key,
+				Expect: "Shutdown waits for the session (or the context)", Actual: fmt.Sprintf("returned %v; handler running = %v, session's connection closed = %v", e, atomic.LoadInt32(&running) == 1, closed)})
+			sdc <- e
+		case <-time.After(300 * time.Millisecond):
+		}
+		close(release)
+		go func() { var resp kmip.Response; _ = kmip.NewDecoder(cc).Decode(&resp); cc.Close() }()
+		if !busy {
+			cc.Close()
+		}
+		select {
+		case <-sdc:
+		case <-time.After(6 * time.Second):
+			r.find(Finding{Kind: "violation", What: "Shutdown did not return after the last session ended", Input: key})
+		}
+		cancel()
+		select {
+		case e := <-ret:
+			if e != nil {
+				r.find(Finding{Kind: "violation", What: "Serve returned an error after Shutdown", Input: key, Actual: e.Error()})
+			}
+		case <-time.After(3 * time.Second):
+			r.find(Finding{Kind: "violation", What: "Serve did not return after Shutdown", Input: key})
+		}
+		r.Stats["listener-close-error-scenarios"]++
+	}
+}
+
 func runC11(r *Result, d *drv.Driver, tier string, seed int64, replay string) {
 	c11CallbackInProgress(r)
 	c11Pipelined(r)
+	c11ListenerCloseFails(r)
 	c11ShutdownFirst(r, d)
 	c11AfterServeFailed(r)
 	c11HandshakeFailure(r)
